@@ -611,6 +611,17 @@ def seeded_outside_chance_cases(ctx):
         p.reset()
         if toks(outcomes(p, n)) != base:
             ctx.violation("C11:reseed:%s" % kind, "re-seeded with the same seed after %d steps, the sequence differs" % k, replay)
+        # seed() alone, on a new instance, is already "seeded with s" (no reset() needed to make it take effect)
+        p = make()
+        p.seed(seed)
+        if toks(outcomes(p, n)) != base:
+            ctx.violation("C11:reseed:%s" % kind, "a new instance after seed(s) differs from one after seed(s); reset()", replay)
+        # never seeded by the caller: the seed drawn by the constructor is the pattern's seed, reset() replays it
+        p = make()
+        first = toks(outcomes(p, n))
+        p.reset()
+        if toks(outcomes(p, n)) != first:
+            ctx.violation("C11:reset:%s" % kind, "an instance that was never seeded explicitly does not replay its sequence after reset()", replay)
         out, touched = isolation_run(r, fresh, n)
         if touched:
             ctx.violation("C11:isolation:%s" % kind, "next() changed the state of the global random generator", replay)
